@@ -157,6 +157,10 @@ func (c chainBridge) InsertChain(momentums []*nom.DetailedMomentum) (int, error)
 		if err != nil {
 			return 0, err
 		}
+		if target == nil {
+			log.Error("can't link momentums to insert", "reason", "missing link height", "height", head.Height-1)
+			return 0, errors.Errorf("can't link momentums to insert. First momentum Prev is %v but we don't have height %v", head.Previous(), head.Height-1)
+		}
 		if target.Identifier() != head.Previous() {
 			log.Error("can't link momentums to insert", "first")
 			return 0, errors.Errorf("can't link momentums to insert. First momentum Prev is %v but he have %v", head.Previous(), target.Identifier())
